@@ -441,3 +441,83 @@ func GenSnap(seed int64, idx int, tier string) *Plan {
 	}
 	return p
 }
+
+// GenStress: steady concurrent traffic (plain, cookie-bearing, upgraded, health-check requests from several clients)
+// while one lane issues commands of every kind back to back. Meant for the uncontrolled runs under the race detector.
+func GenStress(seed int64, idx int, tier string) *Plan {
+	rng := rand.New(rand.NewSource(seed*13000051 + int64(idx)))
+	p := &Plan{Family: "stress", Seed: seed*13000051 + int64(idx), Targets: map[string]TargetScript{}, QuantumMs: 100, SettleMs: 4000, Burst: true}
+	p.Urgent = false
+	pickSched(rng, p)
+	tn := 0
+	grp := func(n int) []string {
+		var g []string
+		for i := 0; i < n; i++ {
+			tn++
+			t := fmt.Sprintf("t%d", tn)
+			p.Targets[t] = TargetScript{Then: ProbeOutcome{Class: "ok"}}
+			if rng.Intn(4) == 0 {
+				p.Targets[t] = TargetScript{Probes: []ProbeOutcome{{Class: "ok"}, {Class: "ok"}, failingProbe(rng)}, Then: ProbeOutcome{Class: "ok"}}
+			}
+			g = append(g, t)
+		}
+		return g
+	}
+	lane := []Cmd{
+		{ID: "c1", Kind: "deploy", Svc: "A", Hosts: []string{"a.test"}, Targets: grp(2), DeployTimeoutMs: 2000, DrainTimeoutMs: 300},
+		{ID: "c2", Kind: "rollout_deploy", Svc: "A", Targets: grp(2), DeployTimeoutMs: 2000, DrainTimeoutMs: 300},
+		{ID: "c3", Kind: "rollout_set", Svc: "A", Pct: 50, Allow: []string{"vip"}},
+	}
+	for i := 0; i < 10+rng.Intn(8); i++ {
+		c := Cmd{ID: fmt.Sprintf("c%d", i+4), Svc: "A", WaitMs: rng.Intn(60)}
+		switch rng.Intn(9) {
+		case 0:
+			c.Kind, c.Pct = "rollout_set", rng.Intn(101)
+		case 1:
+			c.Kind = "rollout_stop"
+		case 2:
+			c.Kind, c.Targets, c.DeployTimeoutMs, c.DrainTimeoutMs = "rollout_deploy", grp(1+rng.Intn(2)), 2000, 300
+		case 3:
+			c.Kind, c.Hosts, c.Targets, c.DeployTimeoutMs, c.DrainTimeoutMs = "deploy", []string{"a.test"}, grp(1+rng.Intn(2)), 2000, 300
+		case 4:
+			c.Kind, c.DrainTimeoutMs, c.MaxPauseMs = "pause", 300, 500
+		case 5:
+			c.Kind, c.DrainTimeoutMs, c.Msg = "stop", 300, "x"
+		case 6, 7:
+			c.Kind = "resume"
+		default:
+			c.Kind = "list"
+		}
+		lane = append(lane, c)
+	}
+	p.Lanes = [][]Cmd{lane}
+	if rng.Intn(2) == 0 { // a second operator
+		p.Lanes = append(p.Lanes, []Cmd{{ID: "x1", Kind: "list", Svc: "A", After: "c1", WaitMs: rng.Intn(200)}, {ID: "x2", Kind: "rollout_set", Svc: "A", Pct: 10, WaitMs: rng.Intn(200)},
+			{ID: "x3", Kind: "remove", Svc: "A", WaitMs: 400 + rng.Intn(600)}})
+	}
+	rn := 0
+	for l := 0; l < 6; l++ {
+		var cl []Req
+		for i := 0; i < 12; i++ {
+			rn++
+			r := Req{ID: fmt.Sprintf("r%d", rn), Svc: "A", Host: "a.test", Path: "/x", Kind: "plain", WaitMs: rng.Intn(40)}
+			switch rng.Intn(8) {
+			case 0:
+				r.Kind, r.HoldMs = "slow", 20+rng.Intn(300)
+			case 1:
+				r.Kind = "upgrade"
+			case 2:
+				r.HC, r.Path = true, "/up"
+			}
+			if rng.Intn(3) > 0 {
+				r.Cookie = []string{"vip", "alice", "bob", "carol", "dave"}[rng.Intn(5)]
+			}
+			if i == 0 {
+				r.After = "c3"
+			}
+			cl = append(cl, r)
+		}
+		p.Clients = append(p.Clients, cl)
+	}
+	return p
+}
